@@ -162,6 +162,9 @@ Definition pm_model (c : list Z * nat * bool * nat * list (list nat) * (Z * Z) *
                  fails=[3], which='iter', exc='StopIteration'),
             dict(xs=[7, 3, 5], threads=1, sort=True, chunksize=1000, orders=[[0, 1, 2]], a=1, b=0,
                  fails=[3], which='threading', exc='StopIteration'),
+            # one thread, in both implementations, every kind of exception, failing at the first, a middle and the last element
+            *[dict(xs=[7, 3, 5], threads=1, sort=True, chunksize=(0 if w == 'iter' else 1000), orders=[[0, 1, 2]], a=1, b=0,
+                   fails=[f], which=w, exc=e) for w in ('iter', 'threading') for e in sorted(EXC) for f in (7, 3, 5)],
             # every kind of exception, without sorting, with threads
             *[dict(xs=[7, 3, 5, 9], threads=2, sort=False, chunksize=2, orders=[[1, 0], [0, 1]], a=1, b=0,
                    fails=[f], which='threading', exc=e) for e in sorted(EXC) for f in (3, 9)],
